@@ -2066,6 +2066,22 @@ def decide_on_values(pe, text, env, rep=None, generic=True):
             return all(vs) if isinstance(n.op, ast.And) else any(vs)
         if isinstance(n, ast.UnaryOp) and isinstance(n.op, ast.Not):
             return not truth(n.operand)
+        if isinstance(n, ast.Call) and callee(n) == "numpy.allclose" and len(n.args) >= 2 and generic:
+            # arrays: close iff every pair of elements is (symbolic elements: generic, i.e. only identical values are close)
+            from .arr import Arr as _Arr
+
+            try:
+                xs = [pe.eval(a_, env) for a_ in n.args[:2]]
+            except Exception:
+                raise Unknown()
+            flat = [x.flat() if isinstance(x, _Arr) else [x] for x in xs]
+            m = max(len(f) for f in flat)
+            if any(len(f) not in (1, m) for f in flat):
+                raise Unknown()
+            pairs = [(flat[0][i if len(flat[0]) > 1 else 0], flat[1][i if len(flat[1]) > 1 else 0]) for i in range(m)]
+            if all(not isinstance(conv(u), Node) and not isinstance(conv(v), Node) for u, v in pairs):
+                raise Unknown()          # concrete arrays are the evaluator's own business
+            return all(same(conv(u), conv(v)) for u, v in pairs)
         if isinstance(n, ast.Call) and callee(n) in ("numpy.isclose", "math.isclose") and len(n.args) >= 2:
             a, b = val(n.args[0]), val(n.args[1])
             if isinstance(a, Node) or isinstance(b, Node):
